@@ -823,7 +823,8 @@ func (vfs *MemFS) Rename(oldpath, newpath string) error {
 		}
 	}
 
-	if oPI.Path() == nPI.Path() {
+	// Renaming a file to itself or to another hard link of itself does nothing.
+	if oPI.Path() == nPI.Path() || (nChild != nil && oChild == nChild) {
 		return nil
 	}
 
